@@ -334,7 +334,7 @@ def run(ctx):
         if k >= len(acc) or acc[k][0] == -997:
             viol('crash:getCovList', 'no answer for getCovList in dimension %d' % d, {'case': sx_str(c)}); continue
         names = [''.join(chr(x) for x in nm) for nm in acc[k][0]]
-        expect = [e['name'] for e in entries if (e['maxdim'] is None or d <= e['maxdim']) and e['minorder'] <= o]
+        expect = [e['name'] for e in entries if (e['maxdim'] is None or d <= e['maxdim']) and e['minorder'] <= o and (e['spaceR'] or not ctx.tab.get('isvalid_checks_space'))]
         ctx.count('accept:%d:%d' % (d, o), True); ctx.dist('accept_dim%d' % d)
         if sorted(names) != sorted(expect):
             diff = sorted(set(names) ^ set(expect))
